@@ -1,9 +1,117 @@
-(* C56 Arithmetic templates compute their documented functions. *)
+(* C56 Arithmetic templates compute their documented functions.
+   Statements only; every proof is `exact <lemma>` from Disc/ArithProofs.v.
+   Model: classical reversible semantics of the decompositions (Disc/ArithModel.v); states are maps
+   wire -> bit, registers are big-endian wire lists of ARBITRARY length and layout (NoDup). *)
 From Coq Require Import List ZArith Bool.
 From PLV Require Import Disc.ArithModel Disc.ArithProofs.
 Import ListNotations.
 Open Scope Z_scope.
 
-Theorem upd_reads_back : forall s i b, upd s i b i = b.
-Proof. exact upd_same. Qed.
-Print Assumptions upd_reads_back.
+(* SemiAdder |x>|y>|0..0> -> |x>|x+y mod 2^len(y)>|0..0>, every register size, every wire layout,
+   at least len(y)-1 zeroed work wires (ripple-carry invariant: work wire i holds carry i) *)
+Theorem semi_adder_adds : forall xw yw ww s,
+  NoDup (xw ++ yw ++ ww) -> xw <> [] -> (length yw <= S (length ww))%nat -> zeroed s ww ->
+  exists s', run (semi_adder xw yw ww) s = Some s' /\
+    (forall i, ~ In i yw -> s' i = s i) /\
+    val_be s' yw = (val_be s xw + val_be s yw) mod 2 ^ Z.of_nat (length yw).
+Proof. exact semi_adder_spec. Qed.
+Print Assumptions semi_adder_adds.
+
+(* ... the work wires are returned in |0> and the x register is unchanged; all TemporaryAND /
+   Adjoint(TemporaryAND) gates of the decomposition are used inside their documented domain
+   (otherwise `run` would answer None) *)
+Theorem work_wires_restored : forall xw yw ww s,
+  NoDup (xw ++ yw ++ ww) -> xw <> [] -> (length yw <= S (length ww))%nat -> zeroed s ww ->
+  exists s', run (semi_adder xw yw ww) s = Some s' /\ zeroed s' ww /\ val_be s' xw = val_be s xw.
+Proof. exact semi_adder_restores. Qed.
+Print Assumptions work_wires_restored.
+
+(* one ripple step: carry wire c holds the carry-in; the block adds x + y + carry on the remaining bits *)
+Theorem ripple_carry_invariant : forall ys c xs ws s,
+  NoDup xs -> NoDup ys -> NoDup ws -> ~ In c xs -> ~ In c ys -> ~ In c ws ->
+  (forall w, In w xs -> ~ In w ys) -> (forall w, In w xs -> ~ In w ws) -> (forall w, In w ys -> ~ In w ws) ->
+  (length ys <= S (length ws))%nat -> zeroed s ws ->
+  exists s', run (adder_body c xs ys ws) s = Some s' /\
+    (forall i, ~ In i ys -> s' i = s i) /\
+    val_le s' ys = (val_le s (firstn (length ys) xs) + val_le s ys + b2z (s c)) mod 2 ^ Z.of_nat (length ys).
+Proof. exact adder_body_spec. Qed.
+Print Assumptions ripple_carry_invariant.
+
+(* Incrementer (elbow ladder rule, >= n-1 zeroed work wires): +1 mod 2^n, all sizes and layouts *)
+Theorem incrementer_adds_one : forall wires work s,
+  NoDup (wires ++ work) -> (length wires <= S (length work))%nat -> zeroed s work ->
+  exists s', run (incrementer wires work) s = Some s' /\
+    (forall i, ~ In i wires -> s' i = s i) /\
+    val_be s' wires = (val_be s wires + 1) mod 2 ^ Z.of_nat (length wires).
+Proof. exact incrementer_spec. Qed.
+Print Assumptions incrementer_adds_one.
+
+Theorem incrementer_work_wires_restored : forall wires work s,
+  NoDup (wires ++ work) -> (length wires <= S (length work))%nat -> zeroed s work ->
+  exists s', run (incrementer wires work) s = Some s' /\ zeroed s' work.
+Proof. exact incrementer_restores. Qed.
+Print Assumptions incrementer_work_wires_restored.
+
+(* REFUTED clause: the fallback rule of Incrementer (used when fewer than n-1 work wires are given),
+   transcribed as written (for_loop(len(wires) - 1, 1, -1)), never flips the most significant wire:
+   on three wires the value 3 is mapped to 0 instead of 4 *)
+Theorem incrementer_fallback_refuted :
+  exists s s', run (incrementer_fallback [0; 1; 2]%nat) s = Some s' /\
+               val_be s [0; 1; 2]%nat = 3 /\ val_be s' [0; 1; 2]%nat = 0.
+Proof. exact incrementer_fallback_wrong. Qed.
+Print Assumptions incrementer_fallback_refuted.
+
+(* QubitSum |a,b,c> -> |a,b,a^b^c>; QubitCarry |a,b,c,d> -> |a,b,b^c,bc^d^(b^c)a> : one full-adder step *)
+Theorem qubit_sum_spec : forall a b c s, a <> c -> b <> c ->
+  exists s', run (qubit_sum a b c) s = Some s' /\
+             s' c = xorb (s a) (xorb (s b) (s c)) /\ (forall i, i <> c -> s' i = s i).
+Proof. exact qubit_sum_ok. Qed.
+Print Assumptions qubit_sum_spec.
+
+Theorem qubit_carry_spec : forall a b c d s, a <> c -> a <> d -> b <> c -> b <> d -> c <> d ->
+  exists s', run (qubit_carry a b c d) s = Some s' /\
+             s' c = xorb (s b) (s c) /\
+             s' d = xorb (andb (s b) (s c)) (xorb (s d) (andb (xorb (s b) (s c)) (s a))) /\
+             (forall i, i <> c -> i <> d -> s' i = s i).
+Proof. exact qubit_carry_ok. Qed.
+Print Assumptions qubit_carry_spec.
+
+(* TemporaryAND on its documented domain (target |0>) is the reversible AND of the controls (with control
+   values); its adjoint returns the target to |0> when it holds that AND *)
+Theorem temporary_and_spec : forall cv0 cv1 a b t s, a <> t -> b <> t -> s t = false ->
+  exists s', run (temporary_and cv0 cv1 a b t) s = Some s' /\
+             s' t = andb (Bool.eqb (s a) cv0) (Bool.eqb (s b) cv1) /\ (forall i, i <> t -> s' i = s i).
+Proof. exact temporary_and_ok. Qed.
+Print Assumptions temporary_and_spec.
+
+Theorem temporary_and_adjoint_spec : forall cv0 cv1 a b t s, a <> t -> b <> t ->
+  s t = andb (Bool.eqb (s a) cv0) (Bool.eqb (s b) cv1) ->
+  exists s', run [GAndAdj [(a, cv0); (b, cv1)] t] s = Some s' /\ s' t = false /\ (forall i, i <> t -> s' i = s i).
+Proof. exact temporary_and_adj_ok. Qed.
+Print Assumptions temporary_and_adjoint_spec.
+
+(* IntegerComparator, PARTIAL: only the finite family n <= 4 control wires (canonical layout), every value
+   0 .. 2^n+1, both polarities, every basis input is decided (by evaluation); the statement for all n is
+   not proved.  The flip condition is  x >= L  resp.  x < L , control wires unchanged. *)
+Theorem comparator_spec_partial : cmp_all_ok 4 = true.
+Proof. exact comparator_upto4. Qed.
+Print Assumptions comparator_spec_partial.
+
+(* non-vacuity: the hypotheses are satisfiable and the circuits really run *)
+Example semi_adder_3_plus_6 :
+  let s := set_be (set_be zero_st [0; 1]%nat 3) [2; 3; 4]%nat 6 in
+  NoDup ([0; 1] ++ [2; 3; 4] ++ [5; 6])%nat /\ zeroed s [5; 6]%nat /\
+  match run (semi_adder [0; 1] [2; 3; 4] [5; 6])%nat s with
+  | Some s' => val_be s' [2; 3; 4]%nat = 1 /\ val_be s' [0; 1]%nat = 3 /\ s' 5%nat = false /\ s' 6%nat = false
+  | None => False
+  end.
+Proof.
+  cbv zeta. split; [repeat constructor; cbn; intuition discriminate|]. split.
+  - intros w [<-|[<-|[]]]; reflexivity.
+  - vm_compute. repeat split; reflexivity.
+Qed.
+
+Example incrementer_7_wraps :
+  match run (incrementer [0; 1; 2] [3; 4])%nat (set_be zero_st [0; 1; 2]%nat 7) with
+  | Some s' => val_be s' [0; 1; 2]%nat = 0 | None => False end.
+Proof. vm_compute. reflexivity. Qed.
